@@ -551,3 +551,7 @@ def check(ctx):
     ctx.rule("R9", "the awaitable locator's discovery run, interpreted end to end on a model event loop and clock with scripted replies (eight scripts): lists only the requested identifier when one is given, each spa once with its fields intact and one discovered-spa event each; returns as soon as the requested spa (or the spa at the given address) has answered, otherwise after the initial wait once any spa has answered, at the latest at the discovery timeout; empty strings mean no request; the endpoint is closed and the helper tasks' domain cancelled on return")
     async_discovery_model(ctx, repo, "R9", rule_filter="R2")   # also files the cancelled-run obligations of R5's clause under R9
     ctx.assume("asyncio runs one callback at a time (cooperative scheduling)")
+    ctx.rule("R11", "each discovery run listens on its own receive queue: no constructor on the way to a discovery endpoint keeps a default-argument object (`queue=AsyncPeekableQueue()` is evaluated once, at definition) nor a class-level container in an instance attribute - replies left queued when one run ends would otherwise be read by the next run's endpoint as if they had just arrived: spas that did not answer are listed (possibly at a stale address) and a run nobody answered returns after the initial wait (C10.R8 borrowed)")
+    from .c10 import no_shared_defaults as _nsd, shared_class_state as _scs
+    _nsd(ctx.borrowed("R11", "C10"), repo, "R8")
+    _scs(ctx.borrowed("R11", "C10"), repo, "R8", only_under="/driver/")
